@@ -64,7 +64,7 @@ def _path_summary(o, state_suffix='.state'):
     return succ, (lits if ok else None)
 
 
-def analyse(facts, stream_adt, state_field='state'):
+def analyse(facts, stream_adt, state_field='state', time_budget=4, budget=400000):
     """-> dict(states, handler_of, trans, T, F, G) or raises Undecidable / returns None when the shape is not a dispatcher + handlers machine"""
     a = facts.adts.get(stream_adt)
     if not a:
@@ -84,12 +84,23 @@ def analyse(facts, stream_adt, state_field='state'):
     # trait impl methods (the dispatcher is usually Stream::poll_next)
     gen += [d for d in facts.fn_index if d.startswith('<' + stream_adt + ' as ') and '{closure' not in d]
     gen += [d for d in facts.fn_index if d.startswith('<' + stream_adt + '<') and ' as ' in d and '{closure' not in d]
+    genset = set(gen)
+
+    def _keep(e):
+        # only what the rule reads: successor assignments and flag writes, conditions over self, calls of sibling methods
+        if e[0] == 'assign':
+            return str(e[1]).startswith('self.') or str(e[1]).endswith('.' + state_field)
+        if e[0] == 'branch':
+            return 'self' in str(e[1])
+        if e[0] == 'callargs':
+            return e[1] in genset
+        return e[0] == 'loopcut'
     summ = {}
     for d in sorted(set(gen)):
         rec = facts.fn(d)
         if rec is None or rec.get('coroutine'):
             continue
-        outs = run_traces(facts, rec, C16.args_for(rec), inline_depth=0, time_budget=4, budget=400000, loop_visits=1, try_tags=True)
+        outs = run_traces(facts, rec, C16.args_for(rec), inline_depth=0, time_budget=time_budget, budget=budget, loop_visits=1, try_tags=True, keep=_keep, kill_dead=True)
         paths = []
         for o in outs:
             succ, lits = _path_summary(o, '.' + state_field)
@@ -111,7 +122,7 @@ def analyse(facts, stream_adt, state_field='state'):
         selfv = U((((('f', fidx[0])), A(senum, vi, v, ())),), 'self')
         args = C16.args_for(drec)
         args[0] = MR(-1, 0, (), selfv) if isinstance(args[0], MR) else (R(selfv) if isinstance(args[0], R) else selfv)
-        outs = run_traces(facts, drec, args, inline_depth=0, time_budget=4, budget=400000, loop_visits=1, try_tags=True)
+        outs = run_traces(facts, drec, args, inline_depth=0, time_budget=time_budget, budget=budget, loop_visits=1, try_tags=True, keep=_keep, kill_dead=True)
         for o in outs:
             succ, lits = _path_summary(o, '.' + state_field)
             if lits is None:
@@ -173,9 +184,9 @@ def analyse(facts, stream_adt, state_field='state'):
     return {'states': states, 'dispatcher': disp, 'handler_of': {v: sorted(hs) for v, hs in handler_of.items()}, 'trans': trans, 'T': T, 'F': F, 'G': G, 'enum': senum}
 
 
-def check(ctx, facts, stream_adt, rule='finaliser-bypass', state_field='state'):
+def check(ctx, facts, stream_adt, rule='finaliser-bypass', state_field='state', time_budget=4, budget=400000, m=None):
     try:
-        m = analyse(facts, stream_adt, state_field)
+        m = m or analyse(facts, stream_adt, state_field, time_budget=time_budget, budget=budget)
     except Undecidable as ex:
         ctx.undecided(rule, stream_adt, str(ex))
         return 1, None
